@@ -290,15 +290,39 @@ def rule_all_siblings_visited(ck, F, ub, rule="R4"):
     from rules import c02 as C02
     fns = [ub["path"]] + [c for c in sorted(scans.reachable(scans.call_graph(F.lib), [ub["path"]])) if c.startswith(("utils::", "<utils::"))]
     n_walks = 0
+    n_dirs = [0]
     for fn in dict.fromkeys(fns):
         b = F.lib.body(fn)
         if b is None:
             continue
         if b.get("mir"):
             Bm = M.Body(b)
-            for bb, t in Bm.calls():
+            # (where the directory comes from is followed through the helpers of the function: judged on the entry function with its
+            # helpers taken in, and on the closures it hands to an iteration)
+            Bdir = I.inlined_body(F.lib, fn, stop=lambda p_: p_.startswith(("reader::", "<reader::", "model::", "<model::", "error::"))) if fn == ub["path"] else None
+            dir_units = []
+            if Bdir is not None:
+                dir_units = [Bdir] + [x for x in (I.inlined_body(F.lib, cp_, stop=lambda p_: p_.startswith(("reader::", "<reader::", "model::", "<model::", "error::")))
+                                                  for _b, cp_ in I.closure_sites(Bdir)) if x is not None]
+            for Bu in dir_units:
+              for bb, t in Bu.calls():
                 d = M.Body.callee_decl(t) or ""
                 if d.endswith(("Path::read_dir", "fs::read_dir")) and t.get("args"):
+                    n_dirs[0] += 1
+                    DIR_ID = M.IDENTITY_CALLS + ("Path::parent", "Option::<T>::unwrap_or", "Option::<T>::unwrap_or_else", "Path::new", "PathBuf::as_path", "Path::to_path_buf",
+                                                 "ops::Deref::deref", "convert::AsRef::as_ref", "Option::<T>::filter", "Option::<P>::unwrap_or")
+                    os_ = M.trace(Bu, t["args"][0], DIR_ID)
+                    foreign = [o for o in os_ if not (o.kind in ("arg", "const", "upvar") or (o.kind == "call" and (M.Body.callee_decl(o.term) or "").endswith(("Path::parent", "Path::new"))))]
+                    if foreign or not os_:
+                        what = (M.Body.callee_decl(foreign[0].term) or "?").rsplit("::", 2)[-1] if foreign and foreign[0].kind == "call" else (foreign[0].kind if foreign else "?")
+                        ck.violation(rule, "siblings:other-directory", Bu.term(bb).get("sp"),
+                                     f"a directory that is not the one the start file lies in is listed as well (it comes from `{what}`): files are registered under "
+                                     f"their bare names, so a file of that directory replaces the sibling of the same name and is read in its place", fn="")
+                    else:
+                        ck.ok(rule, "siblings:one-directory", Bu.term(bb).get("sp"), "the only directory listed is the one the start file lies in", fn="")
+            for bb, t in Bm.calls():
+                d = M.Body.callee_decl(t) or ""
+                if False and d.endswith(("Path::read_dir", "fs::read_dir")) and t.get("args"):
                     # the siblings are the files of ONE directory, the one the start file lies in: files are registered under their bare
                     # name, so a second directory (a sub folder, a folder named by an entry) brings in files that replace siblings of the
                     # same name
